@@ -113,3 +113,19 @@ Example nested_onehot_example :
                              ModelEncodeNested.VList [ModelEncodeNested.VNum 5; ModelEncodeNested.VList [ModelEncodeNested.VNum 1; ModelEncodeNested.VNum 0]];
                              ModelEncodeNested.VNum 0; ModelEncodeNested.VNum 1].
 Proof. vm_compute. reflexivity. Qed.
+
+(* ... and over a sparse row (fix 1738a9b): the entry of the categorical goes, the entry name_level -> 1 comes, nothing else changes - for every row, every number of levels
+   and every named level; the loop before the fix (index and value of the code swapped) is refuted by a computed row with three levels *)
+From Coba Require C13.ModelEncodeSparse C13.ProofsEncodeSparse.
+Theorem sparse_flat_onehot_is_one_entry : forall name o i n,
+  ModelEncodeSparse.dget (name, None) o = Some (ModelEncodeSparse.SCat i n) -> (i < n)%nat ->
+  (forall kv j, In kv o -> ModelEncodeSparse.skey_eqb (fst kv) (name, Some j) = false) ->
+  ModelEncodeSparse.flat1 name o = ModelEncodeSparse.dpop (name, None) o ++ [((name, Some i), ModelEncodeSparse.SNum 1)].
+Proof. exact ProofsEncodeSparse.flat1_spec. Qed.
+Print Assumptions sparse_flat_onehot_is_one_entry.
+Theorem sparse_flat_onehot_before_the_fix_refuted :
+  ModelEncodeSparse.flat1_old 7%Z [((7%Z, None), ModelEncodeSparse.SCat 2 3); ((8%Z, None), ModelEncodeSparse.SNum 5)]
+    = [((8%Z, None), ModelEncodeSparse.SNum 5); ((7%Z, Some 0%nat), ModelEncodeSparse.SNum 1); ((7%Z, Some 1%nat), ModelEncodeSparse.SNum 2)] /\
+  ModelEncodeSparse.flat1 7%Z [((7%Z, None), ModelEncodeSparse.SCat 2 3); ((8%Z, None), ModelEncodeSparse.SNum 5)]
+    = [((8%Z, None), ModelEncodeSparse.SNum 5); ((7%Z, Some 2%nat), ModelEncodeSparse.SNum 1)].
+Proof. exact ProofsEncodeSparse.flat1_old_refuted. Qed.
